@@ -14,8 +14,15 @@ BACKENDS = {
     'python_client': ['-m', 'base', '-c', 'Client', '-t', 'pkg'],
     'js_types': ['types.js'],
     'js_client': ['client.js', '-c', 'Client'],
+    # option sets with several repeated flags (order-carrying options)
+    'js_client+attrs': ['client.js', '-c', 'Client', '-a', 'auth', '-a', 'weight', '-a', 'beta', '-a', 'host', '-a', 'ratio'],
+    'python_client+attrs': ['-m', 'base', '-c', 'Client', '-t', 'pkg', '-a', 'auth', '-a', 'weight', '-a', 'beta', '-a', 'host'],
     'tsd_types': ['types_template.d.ts'],
 }
+
+
+def module_of(name):
+    return name.split('+')[0]
 
 
 def spec_set(which):
@@ -33,7 +40,7 @@ def generate(backend_name, which, outdir):
     import importlib
     from stone.frontend.frontend import specs_to_ir
     from stone.compiler import Compiler
-    backend = importlib.import_module('stone.backends.' + backend_name)
+    backend = importlib.import_module('stone.backends.' + module_of(backend_name))
     api = specs_to_ir(spec_set(which))
     args = list(BACKENDS[backend_name])
     if backend_name == 'tsd_types':
